@@ -155,6 +155,9 @@ def html_escape(text: object) -> str:
         .replace(">", "&gt;")
         .replace('"', "&quot;")
         .replace("'", "&apos;")
+        # XML line-end normalisation would turn a literal "\r" into "\n" (and
+        # "\r\n" into one "\n"); a character reference is passed through.
+        .replace("\r", "&#13;")
     )
 
 
